@@ -219,8 +219,13 @@ func (m *mangler) makeSignature(cert *certloader.Certificate, opts signers.SignO
 		if ctype == "" {
 			ctype = defaultContentType
 		}
+		uri := "/" + name + "?ContentType=" + ctype
+		// checkManifest maps the URI back to a part name like this; refuse what it would not find again
+		if p, _, _ := strings.Cut(path.Join("./"+uri), "?"); p != name {
+			return nil, fmt.Errorf("part name %q cannot be referenced from the signature manifest", name)
+		}
 		ref := manifest.CreateElement("Reference")
-		ref.CreateAttr("URI", "/"+name+"?ContentType="+ctype)
+		ref.CreateAttr("URI", uri)
 		ref.CreateElement("DigestMethod").CreateAttr("Algorithm", hashUri)
 		ref.CreateElement("DigestValue").SetText(base64.StdEncoding.EncodeToString(digest))
 	}
